@@ -1337,7 +1337,7 @@ def cases(tier, seed):
     for i in range(8 if q else 240):
         out.append({'name': 'e2e-%d' % i, 'kind': 'e2e',
                     'seed': [seed, 3, i]})
-    for i in range(8 if q else 96):
+    for i in range(16 if q else 128):
         out.append({'name': 'e2emix-%d' % i, 'kind': 'e2emix',
                     'seed': [seed, 5, i]})
     # long cases first so the pool drains evenly
